@@ -176,6 +176,11 @@ def end_to_end(chk, tier):
             ('=RIGHT(MID(A%d,99,2))' % row, lambda: inst._right(inst._mid(t, 99, 2), None)),
             ('=CONCATENATE(A%d,1234.5678,"|",0.000012345)' % row, lambda: t + '1234.5678|1.2345e-05'),
             ('=CONCATENATE(C%d,"|",A%d)' % (row, row), lambda: str(i1) + '|' + t),
+            ('=CONCATENATE(C%d)' % row, lambda: str(i1)),                       # one argument: still the TEXT form of the operand
+            ('=CONCATENATE(%d)' % i2, lambda: str(i2)),
+            ('=LEFT(CONCATENATE(C%d+5),1)' % row, lambda: str(i1 + 5)[0]),
+            ('=CONCATENATE(A%d)' % row, lambda: t),
+            ('=CONCATENATE(D%d)&C%d' % (row, row), lambda: str(i2) + str(i1)),
             ('=SEARCH(B%d,A%d)' % (row, row), lambda: inst._search(u, t, None)),
             ('=SEARCH(B%d,A%d,%d)' % (row, row, max(1, a)), lambda: inst._search(u, t, max(1, a))),
             ('=VALUE("%s")' % dec, lambda: float(dec)),
@@ -184,6 +189,10 @@ def end_to_end(chk, tier):
         for f, w in fs:
             formulas.append(f)
             want.append(core.outcome(w))
+    # & between two text literals: every character of both, in order (backslashes, both kinds of quotes, line breaks)
+    for x, y in (('C:\\dir', '\\f'), ('a\\', 'b'), ("it's \"q\"", 'x\ny'), ('\\', '\\'), ("'", '"'), ('tab\there', "\\'"), ('{0}', '%s'), ('', '\\n')):
+        formulas.append('="%s"&"%s"' % (x.replace('"', '""'), y.replace('"', '""')))
+        want.append(core.enc(x + y))
     got = realcode.eval_formulas(formulas, values)
     for f, g, w in zip(formulas, got, want):
         chk.count('e2e')
